@@ -142,7 +142,12 @@ def install_hooks():
         ref = _ref_of(self)
         REC.record("cs.finish", ref, final=finalState, state_before=self.state)
         CTX.jitter("cs.finish", ref)
-        return o_finish(self, finalState)
+        prev = getattr(CTX.kill_tag, "tag", "internal")
+        CTX.kill_tag.tag = "external"       # an engine kill issued from finish() comes from outside the engine
+        try:
+            return o_finish(self, finalState)
+        finally:
+            CTX.kill_tag.tag = prev
     CS.finish = cs_finish
 
     o_restart = CS.restart
